@@ -145,6 +145,11 @@ theorem llc_no_lost_wakeup (n : Nat) (σ : Sched n)
     runGood cfgLlc (G.init n) σ :=
   monitor_sound cfgLlc Llc.program Llc.entriesAll llc_discipline_ok n σ hthreads
 
+/-- for `llc.py` the single-waiter assumption inside `runGood` is vacuous (there is no plain `notify`) -/
+theorem llc_single_trivial {n : Nat} (g : G n) : Single cfgLlc g := by
+  intro m cv h
+  simp [cfgLlc, Cfg.nExempt] at h
+
 /-! ## wait sites of the public blocking calls -/
 section
 open Tco
